@@ -160,6 +160,33 @@ def run(case, ctx):
             check(int(o) == e, "numpy-vs-scalar",
                   "array converter gave %r for %r, scalar/exact %r" %
                   (int(o), v, e), value=v, **fmt)
+        # the same converter object again: other order, strides, element
+        # types - nothing may be remembered from the first array
+        flat = arr.reshape(-1)
+        with warnings.catch_warnings():
+            warnings.simplefilter("ignore")
+            again = [("reversed view", flat[::-1], exact[::-1]),
+                     ("every other element", flat[::2], exact[::2])]
+            f32 = [(v, e) for v, e in zip(vals, exact)
+                   if float(np.float32(v)) == v]
+            if f32:
+                again.append(("float32 array", np.array(
+                    [v for v, _ in f32], dtype=np.float32),
+                    [e for _, e in f32]))
+            whole = [(int(v), e) for v, e in zip(vals, exact)
+                     if v == int(v) and abs(v) < 2 ** 52]
+            if whole:
+                again.append(("int64 array", np.array(
+                    [v for v, _ in whole], dtype=np.int64),
+                    [e for _, e in whole]))
+            for label, a2, want2 in again:
+                o2 = c(a2)
+                ctx.hit("converter_reused")
+                check(o2.dtype == want_dtype and
+                      [int(x) for x in o2.reshape(-1).tolist()] == want2,
+                      "numpy-converter-reuse",
+                      "%s through the same converter object: %r, exact %r" %
+                      (label, o2.reshape(-1).tolist()[:6], want2[:6]), **fmt)
         if case["shape"] == "scalar0d":
             with warnings.catch_warnings():
                 warnings.simplefilter("ignore")
